@@ -44,7 +44,7 @@ func c19Filters() []c19Filter {
 	for _, s := range []string{"", "a", "\xff", "é", "a|b", ".", "b ", "="} {
 		out = append(out, c19Filter{text: "|= " + q(s), neg: "!= " + q(s)})
 	}
-	for _, s := range []string{"", "a", "é", "a|b", "^$", "(?i)A", ".", "\\d+", "^.*=", "[^a]$"} {
+	for _, s := range []string{"", "a", "é", "a|b", "^$", "(?i)A", ".", "\\d+", "^.*=", "[^a]$", "^a$", "^ab$", "\\Aa\\z", "^b", "b$", "^(a)$"} {
 		out = append(out, c19Filter{text: "|~ " + q(s), neg: "!~ " + q(s)})
 	}
 	for _, s := range []string{"10.0.0.1", "10.0.0.1-10.0.0.5", "10.0.0.0/24", "::1", "192.168.0.0/16"} {
@@ -115,6 +115,7 @@ func msKeys(m map[string]int) []string {
 }
 
 func c19Check(r *vkit.Run, in c19Input) (nontrivial bool) {
+	r.Begin("C19", in)
 	var ms []map[string]int
 	for _, q := range in.Queries {
 		m, bad := c19Eval(q)
